@@ -1,4 +1,7 @@
 mod cases;
+mod conn;
+mod ext;
+mod fault;
 mod prog;
 mod proto;
 mod seq;
@@ -159,6 +162,108 @@ fn main() {
             }
             out.flush().unwrap();
             println!("{{\"cases\": {}, \"ran\": {}, \"maxcap\": {}}}", n, ran, maxcap);
+        }
+        "tcp-conn" => {
+            // connection lifecycles against the connection limit (C17)
+            let seed: u64 = get("seed", "1").parse().unwrap();
+            let count: usize = get("count", "4").parse().unwrap();
+            let base: u16 = get("port", "24000").parse().unwrap();
+            let mut out = BufWriter::new(File::create(get("out", "conn.ndjson")).unwrap());
+            let mut rng = SmallRng::seed_from_u64(seed);
+            tcp::install_hook();
+            let mut events = 0;
+            let scs: Vec<serde_json::Value> = if let Some(pf) = a.get("scenarios") {
+                BufReader::new(File::open(pf).unwrap()).lines().map(|l| l.unwrap()).filter(|l| !l.trim().is_empty())
+                    .map(|l| serde_json::from_str(&l).unwrap()).collect()
+            } else {
+                (0..count).map(|i| conn::gen_scenario(&mut rng, 1 + ((seed as usize + i) % 4) as u32)).collect()
+            };
+            for (i, sc) in scs.iter().enumerate() {
+                events += conn::run_scenario(sc, base + (i as u16) * 3, &mut out, i + 1);
+            }
+            out.flush().unwrap();
+            println!("{{\"scenarios\": {}, \"events\": {}}}", scs.len(), events);
+        }
+        "tcp-fault" => {
+            // C18: every cut offset x fault kind, with an observer connection
+            let seed: u64 = get("seed", "1").parse().unwrap();
+            let count: usize = get("count", "2").parse().unwrap();
+            let cuts = get("cuts", "sample");
+            let base: u16 = get("port", "25000").parse().unwrap();
+            let mut out = BufWriter::new(File::create(get("out", "fault.ndjson")).unwrap());
+            let mut rng = SmallRng::seed_from_u64(seed);
+            tcp::install_hook();
+            let srv = tcp::start_server(tcp::free_port(base), "none", 0, 1024, 64, 3, 2);
+            let mut runs = 0;
+            for i in 0..count {
+                let fs = fault::gen_fstream(&mut rng);
+                let mut bytes = Vec::new();
+                let mut bounds = vec![0usize];
+                for f in &fs.frames {
+                    bytes.extend_from_slice(&f.bytes());
+                    bounds.push(bytes.len());
+                }
+                writeln!(out, "{}", fault::fstream_event(i + 1, &fs, bytes.len())).unwrap();
+                let offsets: Vec<usize> = if cuts == "all" { (0..=bytes.len()).collect() } else {
+                    use rand::Rng;
+                    let mut v: Vec<usize> = Vec::new();
+                    for b in &bounds {
+                        for d in [-1i64, 0, 1, 2, 4, 5, 12, 23, 24, 25] {
+                            let x = *b as i64 + d;
+                            if x >= 0 && x as usize <= bytes.len() { v.push(x as usize); }
+                        }
+                    }
+                    for _ in 0..10 { v.push(rng.gen_range(0..=bytes.len())); }
+                    v.sort(); v.dedup(); v
+                };
+                for c in offsets {
+                    for kind in fault::KINDS {
+                        if kind == "corrupt" {
+                            // garbage that invalidates a header: only where a header begins or inside its checked fields
+                            let inside = bounds.iter().any(|b| c >= *b && c - *b <= 5 && c - *b != 3);
+                            if !inside { continue; }
+                        }
+                        if (kind == "silence" || kind == "reset") && cuts != "all" && c % 3 != 0 { continue; }
+                        fault::run_fault(&srv, &fs, &bytes, c, kind, &mut rng, &mut out);
+                        runs += 1;
+                    }
+                }
+            }
+            out.flush().unwrap();
+            println!("{{\"streams\": {}, \"runs\": {}}}", count, runs);
+        }
+        "cfg-suite" => {
+            // C20: start the real binary with a command line and run the black-box suite against it
+            let bin = get("bin", "memcrsd");
+            let port: u16 = get("port", "26000").parse().unwrap();
+            let port = tcp::free_port(port);
+            let conn_limit: u32 = get("conn-limit", "3").parse().unwrap();
+            let item_limit: u32 = get("item-limit", "2048").parse().unwrap();
+            let seed: u64 = get("seed", "1").parse().unwrap();
+            let nprog: usize = get("count", "4").parse().unwrap();
+            let mut sargs: Vec<String> = vec!["--port".into(), port.to_string(), "--connection-limit".into(), conn_limit.to_string(),
+                "--item-size-limit".into(), item_limit.to_string()];
+            for (k, f) in [("runtime", "--runtime-type"), ("threads", "--threads"), ("policy", "--eviction-policy"), ("memory", "--memory-limit")] {
+                if let Some(v) = a.get(k) {
+                    sargs.push(f.to_string());
+                    sargs.push(v.clone());
+                }
+            }
+            let child = ext::spawn_server(&bin, &sargs, port);
+            match child {
+                None => {
+                    println!("{{\"started\": false, \"args\": {:?}}}", sargs);
+                }
+                Some(mut ch) => {
+                    let r = ext::suite(port, conn_limit, item_limit, seed, nprog, &get("out", "cfg"), a.contains_key("ttl"));
+                    let _ = ch.kill();
+                    let _ = ch.wait();
+                    let mut r2 = r;
+                    r2["started"] = serde_json::json!(true);
+                    r2["args"] = serde_json::json!(sargs);
+                    println!("{}", r2);
+                }
+            }
         }
         "tcp-wire" => {
             // frame streams over a socket, every stream under many segmentations
